@@ -2,9 +2,12 @@
 import fcntl, json, os, re, subprocess, sys, time, hashlib, random, shutil
 
 VERIF = os.path.dirname(os.path.dirname(os.path.abspath(__file__)))
-LEAN = os.path.join(VERIF, "lean")
+# seeded-change runs (tools/run_seed.py --scratch) point VERIF_REPO / VERIF_HARNESS / VERIF_LEAN / VERIF_OUT at private copies, so that
+# nothing under /repo or /verif (generated Lean kernels, evidence, replays, build output) is touched by them
+LEAN = os.environ.get("VERIF_LEAN", os.path.join(VERIF, "lean"))
 HARNESS = os.environ.get("VERIF_HARNESS", os.path.join(VERIF, "harness"))
-WORK = os.path.join(VERIF, "work")
+OUT = os.environ.get("VERIF_OUT", VERIF)
+WORK = os.path.join(OUT, "work")
 REPO = os.environ.get("VERIF_REPO", "/repo")   # seeded-change runs point this (and VERIF_HARNESS) at a scratch worktree
 NPROC = min(16, os.cpu_count() or 4)
 ALLOWED_AXIOMS = {"propext", "Classical.choice", "Quot.sound"}
@@ -174,32 +177,56 @@ def driver_path():
     return os.path.join(LEAN, ".lake", "build", "bin", "dryoc_model")
 
 
-def run_engine(binary, lines, env=None, nproc=NPROC, timeout=3000, args=()):
+def _run_one(binary, args, env, lines, timeout, stall):
+    """one runner process over `lines`; returns (stdout, rc).  Answers are flushed per request, so progress is visible: a process
+    that gives no new answer for `stall` seconds is killed and reported with rc 'hang' (non-termination in the implementation)."""
+    import threading, time
+    p = subprocess.Popen([binary] + list(args), stdin=subprocess.PIPE, stdout=subprocess.PIPE, stderr=subprocess.DEVNULL, text=True, env=env or ENV)
+    buf, last = [], [time.time()]
+    def feed():
+        try:
+            p.stdin.write("\n".join(lines) + "\n")
+            p.stdin.close()
+        except (BrokenPipeError, OSError, ValueError):
+            pass
+    def read():
+        for l in p.stdout:
+            buf.append(l)
+            last[0] = time.time()
+    tf, tr = threading.Thread(target=feed, daemon=True), threading.Thread(target=read, daemon=True)
+    tf.start(); tr.start()
+    t0, rc = time.time(), None
+    while True:
+        tr.join(0.2)
+        if not tr.is_alive():
+            break
+        now = time.time()
+        if now - last[0] > stall or now - t0 > timeout:
+            rc = "hang" if now - last[0] > stall else "timeout"
+            p.kill()
+            tr.join(5)
+            break
+    p.wait()
+    return "".join(buf), (rc if rc is not None else p.returncode)
+
+
+def run_engine(binary, lines, env=None, nproc=NPROC, timeout=3000, args=(), stall=None):
     """Feed request lines to `binary` split over nproc processes; return {id: [cols...]}."""
     if not lines:
         return {}
+    if stall is None:
+        stall = float(os.environ.get("VERIF_STALL", "240"))
     n = max(1, min(nproc, len(lines) // 8 or 1))
     chunks = [lines[i::n] for i in range(n)]
-    procs = []
-    for ch in chunks:
-        p = subprocess.Popen([binary] + list(args), stdin=subprocess.PIPE, stdout=subprocess.PIPE, stderr=subprocess.DEVNULL,
-                             text=True, env=env or ENV)
-        procs.append((p, ch))
-    # write in threads to avoid deadlock
     import threading
-    outs = [None] * len(procs)
-    def work(i, p, ch):
-        try:
-            o, _ = p.communicate("\n".join(ch) + "\n", timeout=timeout)
-        except subprocess.TimeoutExpired:
-            p.kill()
-            o, _ = p.communicate()
-        outs[i] = (o, p.returncode)
-    ths = [threading.Thread(target=work, args=(i, p, ch)) for i, (p, ch) in enumerate(procs)]
+    outs = [None] * len(chunks)
+    def work(i, ch):
+        outs[i] = _run_one(binary, args, env, ch, timeout, stall)
+    ths = [threading.Thread(target=work, args=(i, ch)) for i, ch in enumerate(chunks)]
     [t.start() for t in ths]
     [t.join() for t in ths]
     res = {}
-    for (o, rc), (p, ch) in zip(outs, procs):
+    for (o, rc), ch in zip(outs, chunks):
         pending = ch
         rounds = 0
         while True:
@@ -212,8 +239,8 @@ def run_engine(binary, lines, env=None, nproc=NPROC, timeout=3000, args=()):
             rest = [l for l in pending if l.split(" ", 1)[0] not in seen]
             if not rest:
                 break
-            # the process died (abort, SIGSEGV, allocation failure): answers are flushed per request, so the first
-            # unanswered request is the one that killed it; the remaining ones are re-run in a fresh process
+            # the process died (abort, SIGSEGV, allocation failure) or stopped answering: answers are flushed per request, so the
+            # first unanswered request is the one that killed / hung it; the remaining ones are re-run in a fresh process
             culprit = rest[0].split(" ", 1)[0]
             res[culprit] = ["abort(rc=%s)" % rc, "n/a"]
             pending = rest[1:]
@@ -222,11 +249,7 @@ def run_engine(binary, lines, env=None, nproc=NPROC, timeout=3000, args=()):
                 for l in pending:
                     res[l.split(" ", 1)[0]] = ["abort(rc=%s)" % rc, "n/a"]
                 break
-            try:
-                q = subprocess.run([binary] + list(args), input="\n".join(pending) + "\n", stdout=subprocess.PIPE, stderr=subprocess.DEVNULL, text=True, env=env or ENV, timeout=timeout)
-                o, rc = q.stdout, q.returncode
-            except subprocess.TimeoutExpired:
-                o, rc = "", "timeout"
+            o, rc = _run_one(binary, args, env, pending, timeout, stall)
     return res
 
 
@@ -288,11 +311,11 @@ def match_known(prop, line, kind):
 
 
 def write_replay(prop, payload):
-    os.makedirs(os.path.join(VERIF, "replay"), exist_ok=True)
+    os.makedirs(os.path.join(OUT, "replay"), exist_ok=True)
     n = 0
-    while os.path.exists(os.path.join(VERIF, "replay", "%s-%d.json" % (prop, n))):
+    while os.path.exists(os.path.join(OUT, "replay", "%s-%d.json" % (prop, n))):
         n += 1
-    path = os.path.join(VERIF, "replay", "%s-%d.json" % (prop, n))
+    path = os.path.join(OUT, "replay", "%s-%d.json" % (prop, n))
     payload["replay_cmd"] = "python3 /verif/check.py %s --replay %s" % (prop, path)
     json.dump(payload, open(path, "w"), indent=1)
     return path
@@ -327,8 +350,8 @@ def write_evidence(res, lean, level="proof", assumptions=None, trusted=None, rul
         ev["coverage"]["translated_kernels"] = {k: lean["generated"].get(k, "?") for k in GEN_KERNELS[res.prop]}
         ev["coverage"]["translator_cmd"] = "python3 /verif/tools/rs2lean.py --all /repo /verif/lean/DryocVerif/Gen  (run inside every check before lake build)"
     ev["coverage"].update(res.extra)
-    os.makedirs(os.path.join(VERIF, "evidence"), exist_ok=True)
-    json.dump(ev, open(os.path.join(VERIF, "evidence", res.prop + ".json"), "w"), indent=1)
+    os.makedirs(os.path.join(OUT, "evidence"), exist_ok=True)
+    json.dump(ev, open(os.path.join(OUT, "evidence", res.prop + ".json"), "w"), indent=1)
     return ev
 
 
